@@ -5,12 +5,36 @@ from . import exact as X
 from . import shadow as S
 
 
+_OTHERS = []
+_N = [0]
+
+
 def _fresh_parse(text):
+    """the text is read back by a brand-new stock parser.  Other parsers live in the same process:
+    before the new parser reads the text, a long-lived parser with DIFFERENT tokenizer settings
+    (padding kept, 'abs' registered as a function) has seen the same text on every other call --
+    what one parser object does must not change how another one reads a text."""
     from mathy_core.parser import ExpressionParser
+    from mathy_core.expressions import AbsExpression
+    from mathy_core.tokenizer import Tokenizer
 
     f = ExpressionParser.parse
     f = getattr(f, "__vmon_original__", f)
-    return f(ExpressionParser(), text)
+    if not _OTHERS:
+        q = ExpressionParser()
+        q.tokenizer = Tokenizer(exclude_padding=False)
+        q.tokenizer.functions["abs"] = AbsExpression
+        q.tokenizer._vmon_funcs = {"sgn": "Sgn", "abs": "Abs"}
+        _OTHERS.append(q)
+    p = ExpressionParser()
+    _N[0] += 1
+    if _N[0] % 2:
+        t = getattr(type(_OTHERS[0]).tokenize, "__vmon_original__", type(_OTHERS[0]).tokenize)
+        try:
+            t(_OTHERS[0], text)
+        except Exception:
+            pass
+    return f(p, text)
 
 
 def equivalent(sa, sb, rng, hints=()):
